@@ -3,31 +3,34 @@ package main
 import (
 	"context"
 	"fmt"
-	"os"
+	"sort"
+	"strings"
 
-	"github.com/sourcenetwork/defradb/client"
 	"github.com/sourcenetwork/defradb/verifharness/core"
 )
 
 func main() {
 	ctx := context.Background()
 	n := core.NewNode(ctx, core.NodeOpts{})
-	_, err := n.DB.AddSchema(ctx, os.Args[1])
+	_, err := n.DB.AddSchema(ctx, "type User {\n name: String\n age: Int\n tag: String\n pts: Int @crdt(type: pcounter)\n}\n")
 	core.Must(err)
-	for _, q := range os.Args[2:] {
-		d, e := n.GQL(ctx, q)
-		fmt.Println(q, "\n  =>", d, e)
+	var sb strings.Builder
+	for i := 0; i < 12; i++ {
+		fmt.Fprintf(&sb, "type Pad%d {\n aaa%d: Int\n tag: Int\n name: Int\n age: Int\n}\n", i, i)
 	}
-	col := n.Col(ctx, "U")
-	ids, err := col.GetAllDocIDs(ctx)
+	_, err = n.DB.AddSchema(ctx, sb.String())
 	core.Must(err)
-	for r := range ids {
-		doc, err := col.Get(ctx, r.ID, false)
-		core.Must(err)
-		m, _ := doc.ToMap()
-		fmt.Println("col.Get", m)
+	var ks []string
+	for k, v := range n.RawScan(ctx, "/db/system/field") {
+		ks = append(ks, k+" = "+v)
 	}
-	core.Must(n.DB.BasicExport(ctx, &client.BackupConfig{Filepath: "/tmp/probe2-export.json"}))
-	b, _ := os.ReadFile("/tmp/probe2-export.json")
-	fmt.Println(string(b))
+	sort.Strings(ks)
+	for _, k := range ks {
+		fmt.Println(k)
+	}
+	for k, v := range n.RawScan(ctx, "/db/system/collection/short") {
+		fmt.Println(k, v)
+	}
+	var cols any
+	_ = cols
 }
